@@ -4,7 +4,8 @@ cd "$(dirname "$0")/.." || exit 2
 T=${1:-quick}
 for d in seeded/C*; do
   P=$(jq -r .property $d/meta.json)
-  OUT=$(harness/seedtest.sh $PWD/$d $P $T 2>&1 | tail -1)
+  TT=$(jq -r '.tier // empty' $d/meta.json); TT=${TT:-$T}       # a seed may name the tier that detects it (default: the one asked for)
+  OUT=$(harness/seedtest.sh $PWD/$d $P $TT 2>&1 | tail -1)
   case "$OUT" in *rc=1*) echo "caught  $d";; *"DOES NOT APPLY"*) echo "STALE   $d (patch no longer applies)";; *) echo "MISSED  $d :: $OUT";; esac
 done
 for d in seeded/benign-*; do
